@@ -41,6 +41,46 @@ func (g *Global) checkWhitelist(wl *Whitelist) []*Obligation {
 	offenders := map[string]bool{}
 	sites := 0
 	switch wl.Kind {
+	case "layout":
+		t := g.lookupType(wl.Target)
+		if t == nil {
+			t = g.lookupType(pkgShort + "." + wl.Target)
+		}
+		if t == nil {
+			o.Result = "failed"
+			o.Detail = "type " + wl.Target + " not found (contract target missing)"
+			return []*Obligation{o}
+		}
+		var got []string
+		var flat func(t types.Type)
+		flat = func(t types.Type) {
+			st, ok := t.Underlying().(*types.Struct)
+			if !ok {
+				return
+			}
+			for i := 0; i < st.NumFields(); i++ {
+				f := st.Field(i)
+				ft := f.Type()
+				if p, ok := ft.Underlying().(*types.Pointer); ok && f.Embedded() {
+					ft = p.Elem()
+				}
+				if _, isSt := ft.Underlying().(*types.Struct); isSt {
+					flat(ft)
+					continue
+				}
+				got = append(got, f.Name()+":"+types.TypeString(ft.Underlying(), nil))
+			}
+		}
+		flat(t)
+		o.Kind = "layout"
+		if strings.Join(got, ", ") == strings.Join(wl.Allowed, ", ") {
+			o.Result = "proved"
+			o.Detail = fmt.Sprintf("%d fields in wire order match the protocol table", len(got))
+		} else {
+			o.Result = "failed"
+			o.Detail = fmt.Sprintf("wire layout of %s is [%s], protocol table says [%s]", wl.Target, strings.Join(got, ", "), strings.Join(wl.Allowed, ", "))
+		}
+		return []*Obligation{o}
 	case "callers":
 		for _, fn := range g.allFns {
 			if fn.Synthetic != "" && !strings.Contains(fn.Synthetic, "instance") {
